@@ -13,6 +13,19 @@ GOENV = dict(os.environ, GOFLAGS="-mod=mod", GOPROXY="off", GOSUMDB="off", GOTOO
              CGO_ENABLED=os.environ.get("CGO_ENABLED", "1"))
 
 
+if os.path.realpath(REPO) != "/repo":
+    # VERIF_REPO (background sweeps on a snapshot of /repo): the harness module must resolve
+    # go.uber.org/cff to that tree, not to /repo, so a private go.mod is used through -modfile.
+    import shutil as _sh
+    _alt = os.path.join(HARNESS, "go.alt.mod")
+    with open(os.path.join(HARNESS, "go.mod")) as _f:
+        _txt = _f.read().replace("=> /repo", "=> " + os.path.realpath(REPO))
+    with open(_alt, "w") as _f:
+        _f.write(_txt)
+    _sh.copy(os.path.join(REPO, "go.sum"), os.path.join(HARNESS, "go.alt.sum"))
+    GOENV["GOFLAGS"] = "-mod=mod -modfile=" + _alt
+
+
 class Infra(Exception):
     """Infrastructure failure: never a verdict."""
 
@@ -52,7 +65,7 @@ def tree_hash(root=None, subdirs=None):
             dirs[:] = sorted(x for x in dirs if x not in (".git", ".lake", "bin", "__pycache__", "Extracted"))
             for f in sorted(files):
                 p = os.path.join(d, f)
-                if root == VERIF and f == "go.sum":
+                if root == VERIF and (f == "go.sum" or f.startswith("go.alt.")):
                     continue  # copied from /repo before every harness build
                 if os.path.islink(p) or not os.path.isfile(p):
                     continue
